@@ -5,14 +5,31 @@ import json
 import os
 import sys
 ROOT = os.path.dirname(os.path.dirname(os.path.abspath(__file__)))
-src = sys.argv[1] if len(sys.argv) > 1 else '/tmp/mutsweep.jsonl'
+srcs = sys.argv[1:] or ['/tmp/mutsweep.jsonl']
+# several files: the first sweep and later re-checks of its undetected survivors (other mapped checks, newer checks);
+# records of the same site (file + description) are merged: union of the checks run, detected if any run detected it
 recs = {}
-for l in open(src):
-    try:
-        r = json.loads(l)
-        recs[(r['file'], r['k'])] = r
-    except Exception:
-        pass
+for n, src in enumerate(srcs):
+    for l in open(src):
+        try:
+            r = json.loads(l)
+        except Exception:
+            continue
+        if n == 0:
+            recs[(r['file'], r['k'])] = r
+            continue
+        if r.get('status') != 'survives-suite':
+            continue          # (site matched to a neighbouring mutation that the suite kills)
+        # a re-check names today's site index; the sweep's record is found by file + description
+        olds = [o for o in recs.values() if o['file'] == r['file'] and o.get('desc') == r.get('desc')
+                and o.get('status') == 'survives-suite']
+        for old in olds:
+            ch = dict(old.get('checks', {}))
+            for c, v in r.get('checks', {}).items():
+                if c not in ch or v.get('exit') == 1:
+                    ch[c] = v
+            old['checks'] = ch
+            old['detected_by'] = old.get('detected_by') or r.get('detected_by')
 by = collections.Counter()
 per_file = collections.defaultdict(collections.Counter)
 undet = []
@@ -31,8 +48,8 @@ for r in recs.values():
 out = {'mutants': len(recs), 'by_outcome': dict(by),
        'per_file': {f: dict(c) for f, c in sorted(per_file.items())},
        'undetected_by_the_two_mapped_checks': undet, 'harness_errors': herr,
-       'note': 'survivors of the repository suite were run against the quick tier of the two checks mapped to the file '
-               '(fast-fail); "undetected" mutants are reviewed in DESIGN.md 12.7 (equivalent / not property-breaking / gap)'}
+       'note': 'survivors of the repository suite were run against the quick tier of the checks mapped to the file '
+               '(two in the first sweep, further ones in re-checks; fast-fail); "undetected" mutants are reviewed in DESIGN.md 12.7 (equivalent / not property-breaking / gap)'}
 os.makedirs(os.path.join(ROOT, 'evidence'), exist_ok=True)
 json.dump(out, open(os.path.join(ROOT, 'sweep', 'mutsweep_summary.json'), 'w'), indent=1)
 print(json.dumps({k: out[k] for k in ('mutants', 'by_outcome')}, indent=1))
